@@ -1,6 +1,1906 @@
-//! C15 — monitor not built yet.
-use crate::core::Ctx;
+//! C15 — version alignment and criticality rules are enforced on every path.
+//!
+//! A rule table (R1..R6, DESIGN.md section 4); every rule is exercised on every public path
+//! that implements it. Almost all artefacts are built by the independent reference (`rfc`),
+//! because the library's own builders refuse to create them; signature values are made by
+//! handing the *reference* digest to the raw `SigningKey::sign` primitive of a zoo key.
+
+use std::io::Read;
+
+use pgp::composed::{
+    CleartextSignedMessage, DecryptionOptions, Deserializable, DetachedSignature, Esk, Message,
+    PlainSessionKey, SignedPublicKey, SignedSecretKey, TheRing, VerificationResult,
+};
+use pgp::crypto::hash::HashAlgorithm;
+use pgp::crypto::sym::SymmetricKeyAlgorithm;
+use pgp::packet::{
+    PacketHeader, PublicKeyEncryptedSessionKey, Signature, SubpacketData, SubpacketType, UserId,
+};
+use pgp::ser::Serialize;
+use pgp::types::{
+    PacketHeaderVersion, Password, PkeskVersion, SignatureBytes, SigningKey,
+    SkeskVersion, Tag, VerifyingKey,
+};
+use rand::RngCore;
+use serde_json::json;
+
+use crate::core::{describe_case, hexs, Ctx};
+use crate::rfc;
+use crate::rfc::frame::{deframe, frame, LenForm};
+use crate::rfc::key::RefPub;
+use crate::rfc::sig::{encode_subpacket, parse_sig, parse_subpackets, RefOps, RefSig};
+use crate::rfc::sym::RefS2k;
+use crate::zoo::{self, Alg, Spec};
+
+/// RFC 9580 5.2.3.7 says a critical subpacket "unknown to the evaluating implementation" SHOULD
+/// make the signature invalid. The library keeps ids 100..=110 in a named opaque variant
+/// (`SubpacketData::Experimental`) and does *not* reject them when critical. DESIGN.md defines
+/// "unknown" by the library's `Other` variant, so this cell is exercised and tallied but only
+/// judged when this switch is on (reported to the maintainer as a potential finding).
+const JUDGE_CRITICAL_EXPERIMENTAL: bool = false;
+/// RFC 9580 10.1.1 also demands v4 subkeys under v4 primaries; the property text only states
+/// the v6 direction. Exercised and tallied; judged only when this switch is on.
+const JUDGE_V4_PRIMARY_V6_SUBKEY: bool = false;
+
+const DATA: &[u8] = b"hello world";
+const CTIME: u32 = 1_700_000_100;
+
+type V = Result<(), String>;
+
+fn es<E: std::fmt::Display>(e: E) -> String {
+    e.to_string()
+}
+
+fn fr(tag: u8, body: &[u8]) -> Vec<u8> {
+    frame(tag, body, &LenForm::NewMin).expect("frame")
+}
+
+fn sp(typ: u8, critical: bool, body: &[u8]) -> Vec<u8> {
+    encode_subpacket(typ, critical, body, 0)
+}
+
+fn lit_packet(data: &[u8]) -> Vec<u8> {
+    let mut b = vec![b'b', 0, 0, 0, 0, 0];
+    b.extend_from_slice(data);
+    fr(11, &b)
+}
+
+fn lib_sig(body: &[u8]) -> Result<Signature, String> {
+    Signature::try_from_reader(PacketHeader::new_fixed(Tag::Signature, body.len() as u32), body)
+        .map_err(|e| format!("parse: {e}"))
+}
+
+fn raw_sign(sk: &dyn SigningKey, hash_id: u8, digest: &[u8]) -> Result<Vec<u8>, String> {
+    let sb = sk
+        .sign(&Password::empty(), HashAlgorithm::from(hash_id), digest)
+        .map_err(|e| format!("raw sign: {e}"))?;
+    Ok(match sb {
+        SignatureBytes::Mpis(m) => {
+            let mut o = vec![];
+            for x in m {
+                o.extend(x.to_bytes().map_err(es)?);
+            }
+            o
+        }
+        SignatureBytes::Native(b) => b.to_vec(),
+    })
+}
+
+fn hash_name(id: u8) -> Option<&'static str> {
+    match id {
+        8 => Some("SHA256"),
+        10 => Some("SHA512"),
+        _ => None,
+    }
+}
+
+// ---------------------------------------------------------------------------------------------
+// keys
+
+struct Sub {
+    pub_body: Vec<u8>,
+    fp: Vec<u8>,
+    kid: [u8; 8],
+    alg: u8,
+    v: u8,
+    rp: RefPub,
+    can_sign: bool,
+}
+
+struct K {
+    name: String,
+    ssk: SignedSecretKey,
+    spk: SignedPublicKey,
+    v: u8,
+    alg: u8,
+    pbody: Vec<u8>,
+    fp: Vec<u8>,
+    kid: [u8; 8],
+    uid: Vec<u8>,
+    subs: Vec<Sub>,
+    /// hash algorithm used for this key's signatures, and one of the same digest size
+    hash: u8,
+    alt_hash: u8,
+}
+
+impl K {
+    fn load(spec: &Spec, idx: u64) -> Result<K, String> {
+        let ssk = zoo::key(spec, idx);
+        Self::from_ssk(format!("{}#{}", spec.name(), idx), ssk)
+    }
+    fn from_ssk(name: String, ssk: SignedSecretKey) -> Result<K, String> {
+        let spk = ssk.to_public_key();
+        let pbody = ssk.primary_key.public_key().to_bytes().map_err(es)?;
+        let (rp, n) = RefPub::parse_prefix(&pbody).ok_or("reference cannot parse primary")?;
+        if n != pbody.len() {
+            return Err("trailing bytes in primary".into());
+        }
+        let mut subs = vec![];
+        for s in &ssk.secret_subkeys {
+            let b = s.key.public_key().to_bytes().map_err(es)?;
+            let (srp, _) = RefPub::parse_prefix(&b).ok_or("reference cannot parse subkey")?;
+            subs.push(Sub {
+                fp: srp.fingerprint(),
+                kid: srp.key_id(),
+                alg: srp.alg,
+                v: srp.version,
+                rp: srp,
+                pub_body: b,
+                can_sign: s.signatures.first().map(|x| x.key_flags().sign()).unwrap_or(false),
+            });
+        }
+        let uid = ssk.details.users.first().map(|u| u.id.id().to_vec()).unwrap_or_default();
+        // Ed448 needs a 512-bit digest
+        let big_curve = rp.alg == 19
+            && rp.material.first().is_some_and(|l| {
+                let oid = rp.material.get(1..1 + *l as usize).unwrap_or(&[]);
+                oid == rfc::key::OID_P384 || oid == rfc::key::OID_P521
+            });
+        let (hash, alt_hash) = if rp.alg == 28 || big_curve { (10, 14) } else { (8, 12) };
+        Ok(K {
+            hash,
+            alt_hash,
+            name,
+            v: rp.version,
+            alg: rp.alg,
+            fp: rp.fingerprint(),
+            kid: rp.key_id(),
+            pbody,
+            uid,
+            subs,
+            ssk,
+            spk,
+        })
+    }
+    fn enc_sub(&self) -> Option<usize> {
+        self.subs.iter().position(|s| !s.can_sign)
+    }
+    fn sign_sub(&self) -> Option<usize> {
+        self.subs.iter().position(|s| s.can_sign)
+    }
+}
+
+// ---------------------------------------------------------------------------------------------
+// reference-made signatures
+
+#[derive(Clone, Copy, PartialEq, Eq, Debug, Hash)]
+enum Kind {
+    DocBin,
+    DocText,
+    Cert,
+    SubBind,
+    /// subkey binding of the signing subkey (key flags: sign) with embedded back signature
+    SubBindSign,
+    PrimBind,
+    Direct,
+}
+
+#[derive(Clone, Debug)]
+struct Scn {
+    sig_v: u8,
+    /// 0 = the key's default
+    hash: u8,
+    /// raw subpackets appended to the hashed area
+    extra: Vec<u8>,
+    issuer_fp: bool,
+    issuer_kid: bool,
+    /// replaces the body of the issuer fingerprint subpacket
+    fp_body: Option<Vec<u8>>,
+}
+
+impl Scn {
+    fn plain(sig_v: u8) -> Scn {
+        Scn { sig_v, hash: 0, extra: vec![], issuer_fp: true, issuer_kid: false, fp_body: None }
+    }
+}
+
+fn salt_for(hash: u8, tag: u8) -> Vec<u8> {
+    let n = rfc::salt_len(hash).unwrap_or(16);
+    (0..n).map(|i| (i as u8).wrapping_mul(7).wrapping_add(tag)).collect()
+}
+
+fn tmpl(v: u8, typ: u8, pub_alg: u8, hash: u8, hashed: Vec<u8>, unhashed: Vec<u8>, salt: Vec<u8>) -> RefSig {
+    RefSig {
+        version: v,
+        typ,
+        pub_alg,
+        hash_alg: hash,
+        created: 0,
+        issuer: [0; 8],
+        hashed,
+        unhashed,
+        left16: [0, 0],
+        salt,
+        sig_data: vec![],
+        off_hashed: 0,
+        off_unhashed: 0,
+        off_left16: 0,
+        off_salt: 0,
+        off_sig: 0,
+    }
+}
+
+/// Completes `rs` so that it carries `digest` (left16 + signature value made over it).
+fn finish(sk: &dyn SigningKey, mut rs: RefSig, digest: &[u8], sign_hash: u8) -> Result<Vec<u8>, String> {
+    rs.left16 = [digest[0], digest[1]];
+    rs.sig_data = raw_sign(sk, sign_hash, digest)?;
+    Ok(rs.encode())
+}
+
+fn make_sig(sk: &dyn SigningKey, rs: RefSig, content: &[&[u8]]) -> Result<Vec<u8>, String> {
+    let d = rs.digest_over(content).ok_or("reference hash unsupported")?;
+    let h = rs.hash_alg;
+    finish(sk, rs, &d, h)
+}
+
+fn build_sig(k: &K, scn: &Scn, kind: Kind) -> Result<Vec<u8>, String> {
+    let by_sub = kind == Kind::PrimBind;
+    let si = k.sign_sub();
+    let (sk, s_fp, s_kid, s_alg, s_v): (&dyn SigningKey, &[u8], [u8; 8], u8, u8) = if by_sub {
+        let i = si.ok_or("no signing subkey")?;
+        (&k.ssk.secret_subkeys[i].key, &k.subs[i].fp, k.subs[i].kid, k.subs[i].alg, k.subs[i].v)
+    } else {
+        (&k.ssk.primary_key, &k.fp, k.kid, k.alg, k.v)
+    };
+    let mut hashed = sp(2, false, &CTIME.to_be_bytes());
+    if scn.issuer_fp {
+        let body = scn.fp_body.clone().unwrap_or_else(|| {
+            let mut b = vec![s_v];
+            b.extend_from_slice(s_fp);
+            b
+        });
+        hashed.extend(sp(33, false, &body));
+    }
+    if scn.issuer_kid {
+        hashed.extend(sp(16, false, &s_kid));
+    }
+    let typ = match kind {
+        Kind::DocBin => 0x00,
+        Kind::DocText => 0x01,
+        Kind::Cert => {
+            hashed.extend(sp(27, false, &[0x03]));
+            0x13
+        }
+        Kind::SubBind => {
+            hashed.extend(sp(27, false, &[0x0C]));
+            0x18
+        }
+        Kind::SubBindSign => {
+            hashed.extend(sp(27, false, &[0x02]));
+            let back = build_sig(k, &Scn::plain(k.subs[si.ok_or("no signing subkey")?].v), Kind::PrimBind)?;
+            hashed.extend(sp(32, false, &back));
+            0x18
+        }
+        Kind::PrimBind => 0x19,
+        Kind::Direct => {
+            hashed.extend(sp(27, false, &[0x03]));
+            0x1F
+        }
+    };
+    hashed.extend_from_slice(&scn.extra);
+    let hash = if scn.hash == 0 { k.hash } else { scn.hash };
+    let salt = if scn.sig_v == 6 { salt_for(hash, typ) } else { vec![] };
+    let rs = tmpl(scn.sig_v, typ, s_alg, hash, hashed, vec![], salt);
+    let kf = rfc::sig::key_hash_framing(&k.pbody);
+    match kind {
+        Kind::DocBin | Kind::DocText => make_sig(sk, rs, &[DATA]),
+        Kind::Cert => {
+            let uf = rfc::sig::uid_hash_framing(scn.sig_v, false, &k.uid);
+            make_sig(sk, rs, &[&kf, &uf])
+        }
+        Kind::SubBind => {
+            let i = k.enc_sub().ok_or("no encryption subkey")?;
+            let sf = rfc::sig::key_hash_framing(&k.subs[i].pub_body);
+            make_sig(sk, rs, &[&kf, &sf])
+        }
+        Kind::SubBindSign | Kind::PrimBind => {
+            let i = si.ok_or("no signing subkey")?;
+            let sf = rfc::sig::key_hash_framing(&k.subs[i].pub_body);
+            make_sig(sk, rs, &[&kf, &sf])
+        }
+        Kind::Direct => make_sig(sk, rs, &[&kf]),
+    }
+}
+
+fn ops_for(rs: &RefSig, k: &K) -> Vec<u8> {
+    if rs.version == 6 {
+        let mut issuer = k.fp.clone();
+        issuer.resize(32, 0);
+        RefOps { version: 6, typ: rs.typ, hash_alg: rs.hash_alg, pub_alg: rs.pub_alg, salt: rs.salt.clone(), issuer, last: 1 }.encode()
+    } else {
+        RefOps { version: 3, typ: rs.typ, hash_alg: rs.hash_alg, pub_alg: rs.pub_alg, salt: vec![], issuer: k.kid.to_vec(), last: 1 }.encode()
+    }
+}
+
+// ---------------------------------------------------------------------------------------------
+// verification paths
+
+fn inline_verify(pk: &dyn VerifyingKey, bytes: &[u8], mode: u8) -> V {
+    let mut m = Message::from_bytes(bytes).map_err(|e| format!("parse: {e}"))?;
+    match mode {
+        0 => m.verify_read(pk).map(|_| ()).map_err(es),
+        1 => {
+            let mut out = vec![];
+            m.read_to_end(&mut out).map_err(|e| format!("read: {e}"))?;
+            if out != DATA {
+                return Err("payload differs".into());
+            }
+            m.verify(pk).map(|_| ()).map_err(es)
+        }
+        _ => {
+            let mut out = vec![];
+            m.read_to_end(&mut out).map_err(|e| format!("read: {e}"))?;
+            let r = m.verify_nested(&[pk]).map_err(es)?;
+            match r.first() {
+                Some(VerificationResult::Valid(_)) => Ok(()),
+                _ => Err("Invalid".into()),
+            }
+        }
+    }
+}
+
+fn cleartext_doc(sig_body: &[u8], hash: u8, line_end: &str) -> String {
+    let mut d = format!("-----BEGIN PGP SIGNED MESSAGE-----{line_end}");
+    if let Some(h) = hash_name(hash) {
+        d.push_str(&format!("Hash: {h}{line_end}"));
+    }
+    d.push_str(line_end);
+    d.push_str(std::str::from_utf8(DATA).unwrap());
+    d.push_str(line_end);
+    d.push_str(&rfc::armor::armor_encode("PGP SIGNATURE", &[], &fr(2, sig_body), true, line_end));
+    d
+}
+
+#[derive(Clone)]
+struct Pk {
+    tag: u8,
+    body: Vec<u8>,
+}
+
+fn ser(p: &[Pk]) -> Vec<u8> {
+    p.iter().flat_map(|x| fr(x.tag, &x.body)).collect()
+}
+
+fn tsk_packets(ssk: &SignedSecretKey) -> Result<Vec<Pk>, String> {
+    let b = ssk.to_bytes().map_err(es)?;
+    Ok(deframe(&b)?.into_iter().map(|p| Pk { tag: p.tag, body: p.body }).collect())
+}
+
+/// Reference re-framing secret -> public: tags 5->6, 7->14, body cut after the public part.
+fn to_tpk(p: &[Pk]) -> Option<Vec<Pk>> {
+    let mut o = vec![];
+    for x in p {
+        match x.tag {
+            5 | 7 => {
+                let (_, n) = RefPub::parse_prefix(&x.body)?;
+                o.push(Pk { tag: if x.tag == 5 { 6 } else { 14 }, body: x.body[..n].to_vec() });
+            }
+            _ => o.push(x.clone()),
+        }
+    }
+    Some(o)
+}
+
+/// index of the first signature packet following the n-th packet whose tag is in `anchors`
+fn sig_after(p: &[Pk], anchors: &[u8], nth: usize) -> Option<usize> {
+    let a = p.iter().enumerate().filter(|(_, x)| anchors.contains(&x.tag)).nth(nth)?.0;
+    (p.get(a + 1)?.tag == 2).then_some(a + 1)
+}
+
+fn tpk_verdict(bytes: &[u8]) -> V {
+    let k = SignedPublicKey::from_bytes(bytes).map_err(|e| format!("parse: {e}"))?;
+    k.verify_bindings().map_err(es)
+}
+fn tsk_verdict(bytes: &[u8]) -> V {
+    let k = SignedSecretKey::from_bytes(bytes).map_err(|e| format!("parse: {e}"))?;
+    k.verify_bindings().map_err(es)
+}
+
+/// Runs every verification path for signatures made under `scn` by key `k`.
+/// Returns (path, verdict) pairs; a path whose artefact could not be built is reported as
+/// Err("build: ..") under path "build/<kind>".
+fn run_sig_paths(k: &K, scn: &Scn, thorough: bool) -> Vec<(String, V)> {
+    let mut out: Vec<(String, V)> = vec![];
+    let pk = &k.spk.primary_key;
+    // ---- document signatures
+    match build_sig(k, scn, Kind::DocBin) {
+        Err(e) => out.push(("build/doc".into(), Err(format!("build: {e}")))),
+        Ok(body) => {
+            out.push(("sig-verify".into(), lib_sig(&body).and_then(|s| s.verify(pk, DATA).map_err(es))));
+            out.push((
+                "detached".into(),
+                DetachedSignature::from_bytes(&fr(2, &body)[..])
+                    .map_err(|e| format!("parse: {e}"))
+                    .and_then(|d| d.verify(pk, DATA).map_err(es)),
+            ));
+            let rs = parse_sig(&body).expect("own sig");
+            let mut pre = fr(2, &body);
+            pre.extend(lit_packet(DATA));
+            let mut one = fr(4, &ops_for(&rs, k));
+            one.extend(lit_packet(DATA));
+            one.extend(fr(2, &body));
+            for (name, bytes) in [("inline-prefixed", &pre), ("inline-onepass", &one)] {
+                out.push((format!("{name}/verify_read"), inline_verify(pk, bytes, 0)));
+                out.push((format!("{name}/verify"), inline_verify(pk, bytes, 1)));
+                out.push((format!("{name}/verify_nested"), inline_verify(pk, bytes, 2)));
+            }
+            if thorough {
+                let arm = rfc::armor::armor_encode("PGP MESSAGE", &[], &one, true, "\n");
+                let r = Message::from_armor(arm.as_bytes())
+                    .map_err(|e| format!("parse: {e}"))
+                    .and_then(|(mut m, _)| m.verify_read(pk).map(|_| ()).map_err(es));
+                out.push(("inline-onepass/armored".into(), r));
+            }
+        }
+    }
+    match build_sig(k, scn, Kind::DocText) {
+        Err(e) => out.push(("build/text".into(), Err(format!("build: {e}")))),
+        Ok(body) => {
+            out.push(("sig-verify-text".into(), lib_sig(&body).and_then(|s| s.verify(pk, DATA).map_err(es))));
+            for (n, le) in [("cleartext", "\n"), ("cleartext-crlf", "\r\n")] {
+                if n == "cleartext-crlf" && !thorough {
+                    continue;
+                }
+                let doc = cleartext_doc(&body, if scn.hash == 0 { k.hash } else { scn.hash }, le);
+                out.push((
+                    n.into(),
+                    CleartextSignedMessage::from_string(&doc)
+                        .map_err(|e| format!("parse: {e}"))
+                        .and_then(|(m, _)| m.verify(pk).map(|_| ()).map_err(es)),
+                ));
+            }
+        }
+    }
+    // ---- key signatures, low level
+    let uid = UserId::from_str(PacketHeaderVersion::New, String::from_utf8_lossy(&k.uid)).expect("uid");
+    let pkts = tsk_packets(&k.ssk);
+    let cert_variant = |out: &mut Vec<(String, V)>, name: &str, f: &dyn Fn(&mut Vec<Pk>) -> Option<()>| {
+        let Ok(p) = &pkts else {
+            out.push((format!("build/{name}"), Err("build: cannot deframe key".into())));
+            return;
+        };
+        let mut p = p.clone();
+        if f(&mut p).is_none() {
+            out.push((format!("build/{name}"), Err("build: cert layout".into())));
+            return;
+        }
+        out.push((format!("{name}/tsk"), tsk_verdict(&ser(&p))));
+        match to_tpk(&p) {
+            Some(t) => out.push((format!("{name}/tpk"), tpk_verdict(&ser(&t)))),
+            None => out.push((format!("build/{name}"), Err("build: to_tpk".into()))),
+        }
+    };
+    match build_sig(k, scn, Kind::Cert) {
+        Err(e) => out.push(("build/cert".into(), Err(format!("build: {e}")))),
+        Ok(body) => {
+            out.push(("certification".into(), lib_sig(&body).and_then(|s| s.verify_certification(pk, Tag::UserId, &uid).map_err(es))));
+            cert_variant(&mut out, "cert-uid", &|p| {
+                let i = sig_after(p, &[13], 0)?;
+                p[i].body = body.clone();
+                Some(())
+            });
+        }
+    }
+    match build_sig(k, scn, Kind::Direct) {
+        Err(e) => out.push(("build/direct".into(), Err(format!("build: {e}")))),
+        Ok(body) => {
+            out.push(("direct-key".into(), lib_sig(&body).and_then(|s| s.verify_key(pk).map_err(es))));
+            cert_variant(&mut out, "cert-direct", &|p| {
+                match sig_after(p, &[5], 0) {
+                    Some(i) => p[i].body = body.clone(),
+                    None => p.insert(1, Pk { tag: 2, body: body.clone() }),
+                }
+                Some(())
+            });
+        }
+    }
+    if let Some(ei) = k.enc_sub() {
+        match build_sig(k, scn, Kind::SubBind) {
+            Err(e) => out.push(("build/subbind".into(), Err(format!("build: {e}")))),
+            Ok(body) => {
+                let sub = k.ssk.secret_subkeys[ei].key.public_key();
+                out.push(("subkey-binding".into(), lib_sig(&body).and_then(|s| s.verify_subkey_binding(pk, sub).map_err(es))));
+                cert_variant(&mut out, "cert-subkey", &|p| {
+                    let i = sig_after(p, &[7], ei)?;
+                    p[i].body = body.clone();
+                    Some(())
+                });
+            }
+        }
+    }
+    if let Some(si) = k.sign_sub() {
+        let sub = k.ssk.secret_subkeys[si].key.public_key();
+        match build_sig(k, scn, Kind::PrimBind) {
+            Err(e) => out.push(("build/primbind".into(), Err(format!("build: {e}")))),
+            Ok(back) => {
+                out.push(("primary-key-binding".into(), lib_sig(&back).and_then(|s| s.verify_primary_key_binding(sub, pk).map_err(es))));
+                // certificate whose signing subkey binding (aligned, valid) embeds this back signature
+                let outer = (|| -> Result<Vec<u8>, String> {
+                    let mut hashed = sp(2, false, &CTIME.to_be_bytes());
+                    let mut fpb = vec![k.v];
+                    fpb.extend_from_slice(&k.fp);
+                    hashed.extend(sp(33, false, &fpb));
+                    hashed.extend(sp(27, false, &[0x02]));
+                    hashed.extend(sp(32, false, &back));
+                    let salt = if k.v == 6 { salt_for(k.hash, 0x18) } else { vec![] };
+                    let rs = tmpl(if k.v == 6 { 6 } else { 4 }, 0x18, k.alg, k.hash, hashed, vec![], salt);
+                    make_sig(&k.ssk.primary_key, rs, &[&rfc::sig::key_hash_framing(&k.pbody), &rfc::sig::key_hash_framing(&k.subs[si].pub_body)])
+                })();
+                match outer {
+                    Err(e) => out.push(("build/backsig-cert".into(), Err(format!("build: {e}")))),
+                    Ok(ob) => cert_variant(&mut out, "cert-backsig", &|p| {
+                        let i = sig_after(p, &[7], si)?;
+                        p[i].body = ob.clone();
+                        Some(())
+                    }),
+                }
+            }
+        }
+        match build_sig(k, scn, Kind::SubBindSign) {
+            Err(e) => out.push(("build/subbindsign".into(), Err(format!("build: {e}")))),
+            Ok(body) => {
+                out.push(("subkey-binding-sign".into(), lib_sig(&body).and_then(|s| s.verify_subkey_binding(pk, sub).map_err(es))));
+                cert_variant(&mut out, "cert-signsubkey", &|p| {
+                    let i = sig_after(p, &[7], si)?;
+                    p[i].body = body.clone();
+                    Some(())
+                });
+            }
+        }
+    }
+    out
+}
+
+/// Judges the verdicts of one scenario. `expect_accept`: what every path must say.
+/// `only`: restricts judged/recorded paths (prefix match), None = all.
+fn judge_paths(
+    ctx: &mut Ctx,
+    rule: &str,
+    case: &str,
+    k: &K,
+    res: Vec<(String, V)>,
+    expect_accept: bool,
+    replay: serde_json::Value,
+) {
+    for (path, v) in res {
+        ctx.eval();
+        if path.starts_with("build/") {
+            ctx.inconclusive(format!("{rule}: cannot build artefact {path} for {case}: {}", v.err().unwrap_or_default()));
+            continue;
+        }
+        ctx.seen(&format!("{rule}.cells"), format!("{path}|{case}"));
+        ctx.seen(&format!("{rule}.paths"), path.clone());
+        ctx.cover(&(rule, &path, case, &k.name, replay.to_string()));
+        match (&v, expect_accept) {
+            (Ok(()), false) => ctx.violation(
+                format!("C15/{rule}/{path}/{case}/accepted"),
+                format!("{rule} {case}: path {path} accepted (key {})", k.name),
+                json!({"rule": rule, "case": case, "path": path, "key": k.name, "detail": replay}),
+            ),
+            (Err(e), true) => ctx.violation(
+                format!("C15/{rule}/{path}/{case}/rejected-unexpectedly"),
+                format!("{rule} {case}: path {path} rejected a valid artefact: {e} (key {})", k.name),
+                json!({"rule": rule, "case": case, "path": path, "key": k.name, "detail": replay}),
+            ),
+            (Err(e), false) => {
+                let short: String = e.chars().take(48).collect();
+                ctx.seen(&format!("{rule}.why"), format!("{case}|{path}|{short}"));
+            }
+            _ => {}
+        }
+    }
+}
+
+// ---------------------------------------------------------------------------------------------
+// R1 / R5: ESK x container x options
+
+#[derive(Clone, Copy, PartialEq, Eq, Debug, Hash)]
+enum EskK {
+    P3,
+    P6,
+    S4,
+    S5,
+    S6,
+}
+const ESKS: [EskK; 5] = [EskK::P3, EskK::P6, EskK::S4, EskK::S5, EskK::S6];
+
+#[derive(Clone, Copy, PartialEq, Eq, Debug, Hash)]
+enum Cont {
+    Sed,
+    V1,
+    V2,
+    G20,
+}
+const CONTS: [Cont; 4] = [Cont::Sed, Cont::V1, Cont::V2, Cont::G20];
+
+#[derive(Clone, Copy, PartialEq, Eq, Debug, Hash)]
+struct Opts {
+    legacy: bool,
+    gnupg: bool,
+}
+const OPTS: [Opts; 4] = [
+    Opts { legacy: false, gnupg: false },
+    Opts { legacy: true, gnupg: false },
+    Opts { legacy: false, gnupg: true },
+    Opts { legacy: true, gnupg: true },
+];
+
+impl EskK {
+    fn name(self) -> &'static str {
+        match self {
+            EskK::P3 => "pkesk3",
+            EskK::P6 => "pkesk6",
+            EskK::S4 => "skesk4",
+            EskK::S5 => "skesk5",
+            EskK::S6 => "skesk6",
+        }
+    }
+    fn is_pk(self) -> bool {
+        matches!(self, EskK::P3 | EskK::P6)
+    }
+}
+impl Cont {
+    fn name(self) -> &'static str {
+        match self {
+            Cont::Sed => "sed",
+            Cont::V1 => "seipd1",
+            Cont::V2 => "seipd2",
+            Cont::G20 => "gnupg20",
+        }
+    }
+}
+impl Opts {
+    fn name(self) -> &'static str {
+        match (self.legacy, self.gnupg) {
+            (false, false) => "opt-default",
+            (true, false) => "opt-legacy",
+            (false, true) => "opt-gnupg",
+            (true, true) => "opt-legacy+gnupg",
+        }
+    }
+    fn lib(self) -> DecryptionOptions {
+        let mut o = DecryptionOptions::new();
+        if self.legacy {
+            o = o.enable_legacy();
+        }
+        if self.gnupg {
+            o = o.enable_gnupg_aead();
+        }
+        o
+    }
+}
+
+/// RFC 9580 10.3.2.1 (+ the documented GnuPG extension): Some(true) aligned, Some(false)
+/// must be discarded, None = not specified by either document (SKESK v4 in front of a
+/// LibrePGP OCB packet) -> only the opt-in is judged.
+fn aligned(e: EskK, c: Cont) -> Option<bool> {
+    Some(match (c, e) {
+        (Cont::Sed | Cont::V1, EskK::P3 | EskK::S4) => true,
+        (Cont::Sed | Cont::V1, _) => false,
+        (Cont::V2, EskK::P6 | EskK::S6) => true,
+        (Cont::V2, _) => false,
+        (Cont::G20, EskK::P3 | EskK::S5) => true,
+        (Cont::G20, EskK::S4) => return None,
+        (Cont::G20, _) => false,
+    })
+}
+
+fn optin_ok(e: EskK, c: Cont, o: Opts) -> bool {
+    (c != Cont::Sed || o.legacy) && (c != Cont::G20 || o.gnupg) && (e != EskK::S5 || o.gnupg)
+}
+
+/// LibrePGP (draft-koch-librepgp) OCB encrypted data packet body, version 1.
+fn gnupg_aead_encrypt(sym: u8, chunk_octet: u8, iv: &[u8; 15], key: &[u8], data: &[u8]) -> Option<Vec<u8>> {
+    let cs = 1usize << (chunk_octet as usize + 6);
+    let mut out = vec![1u8, sym, 2, chunk_octet];
+    out.extend_from_slice(iv);
+    let nonce_for = |idx: u64| {
+        let mut n = iv.to_vec();
+        for (i, b) in idx.to_be_bytes().iter().enumerate() {
+            n[7 + i] ^= b;
+        }
+        n
+    };
+    let ad_for = |idx: u64| {
+        let mut ad = vec![0xD4u8, 1, sym, 2, chunk_octet];
+        ad.extend(idx.to_be_bytes());
+        ad
+    };
+    let mut idx = 0u64;
+    for c in data.chunks(cs) {
+        out.extend(rfc::sym::aead_seal(sym, 2, key, &nonce_for(idx), &ad_for(idx), c)?);
+        idx += 1;
+    }
+    let mut ad = ad_for(idx);
+    ad.extend((data.len() as u64).to_be_bytes());
+    out.extend(rfc::sym::aead_seal(sym, 2, key, &nonce_for(idx), &ad, &[])?);
+    Some(out)
+}
+
+fn gnupg_aead_decrypt(body: &[u8], key: &[u8]) -> Option<Vec<u8>> {
+    if body.len() < 19 + 16 || body[0] != 1 || body[2] != 2 {
+        return None;
+    }
+    let (sym, co) = (body[1], body[3]);
+    let iv: [u8; 15] = body[4..19].try_into().ok()?;
+    let cs = 1usize << (co as usize + 6);
+    let ct = &body[19..];
+    let (chunks, fin) = ct.split_at(ct.len() - 16);
+    let nonce_for = |idx: u64| {
+        let mut n = iv.to_vec();
+        for (i, b) in idx.to_be_bytes().iter().enumerate() {
+            n[7 + i] ^= b;
+        }
+        n
+    };
+    let mut out = vec![];
+    let mut idx = 0u64;
+    for c in chunks.chunks(cs + 16) {
+        let mut ad = vec![0xD4u8, 1, sym, 2, co];
+        ad.extend(idx.to_be_bytes());
+        out.extend(rfc::sym::aead_open(sym, 2, key, &nonce_for(idx), &ad, c)?.ok()?);
+        idx += 1;
+    }
+    let mut ad = vec![0xD4u8, 1, sym, 2, co];
+    ad.extend(idx.to_be_bytes());
+    ad.extend((out.len() as u64).to_be_bytes());
+    rfc::sym::aead_open(sym, 2, key, &nonce_for(idx), &ad, fin)?.ok()?;
+    Some(out)
+}
+
+/// LibrePGP v5 SKESK body: 5, cipher, mode(2), S2K, IV, AEAD(key = S2K output, ad = C3 05 cipher mode).
+fn skesk_v5_encode(sym: u8, s2k: &RefS2k, pw: &[u8], iv: &[u8; 15], sk: &[u8]) -> Option<Vec<u8>> {
+    let kek = s2k.derive(pw, rfc::sym::key_size(sym)?)?;
+    let ad = [0xC3u8, 5, sym, 2];
+    let mut o = vec![5u8, sym, 2];
+    o.extend(s2k.encode());
+    o.extend_from_slice(iv);
+    o.extend(rfc::sym::aead_seal(sym, 2, &kek, iv, &ad, sk)?);
+    Some(o)
+}
+
+/// Anchors the two LibrePGP encoders on the sample of draft-koch-librepgp ("complete OCB
+/// encrypted packet sequence", password "password").
+fn librepgp_selfcheck() -> Result<(), String> {
+    let skesk5 = hex::decode("c33d050702030 89f0b7da3e5ea64779099e326e5400a90936cefb4e8eba08c6773716d1f2714540a38fcac529949dac529d3de31e15b4aeb729e330033dbed".replace(' ', "")).map_err(es)?;
+    let ocb = hex::decode("d4490107020e5ed2bc1e470abe8f1d644c7a6c8a567b0f7701196611a154ba9c2574cd056284a8ef68035c623d93cc708a43211bb6eaf2b27f7c18d571bcd83b20add3a08b73af15b9a098").map_err(es)?;
+    let cek = hex::decode("d1f01ba30e130aa7d2582c16e050ae44").map_err(es)?;
+    let s2k = RefS2k::Iterated { hash: 8, salt: [0x9f, 0x0b, 0x7d, 0xa3, 0xe5, 0xea, 0x64, 0x77], count: 144 };
+    let iv: [u8; 15] = skesk5[16..31].try_into().map_err(|_| "iv")?;
+    let mine = skesk_v5_encode(7, &s2k, b"password", &iv, &cek).ok_or("skesk5 encode")?;
+    if mine != skesk5[2..] {
+        return Err("reference SKESK v5 differs from the LibrePGP sample".into());
+    }
+    let body = &ocb[2..];
+    let pt = gnupg_aead_decrypt(body, &cek).ok_or("reference cannot open the LibrePGP OCB sample")?;
+    let iv2: [u8; 15] = body[4..19].try_into().map_err(|_| "iv")?;
+    let again = gnupg_aead_encrypt(body[1], body[3], &iv2, &cek, &pt).ok_or("ocb encode")?;
+    if again != body {
+        return Err("reference OCB packet differs from the LibrePGP sample".into());
+    }
+    Ok(())
+}
+
+/// One recipient for PKESK packets
+struct Rcpt {
+    k: K,
+    sub: usize,
+}
+
+fn build_pkesk(r: &Rcpt, v6: bool, sym: u8, sk: &[u8], seed: &[u8; 32], rng: &mut rand_chacha::ChaCha8Rng) -> Result<Vec<u8>, String> {
+    let s = &r.k.subs[r.sub];
+    let mut body = if v6 {
+        let mut b = vec![6u8, 1 + s.fp.len() as u8, s.v];
+        b.extend_from_slice(&s.fp);
+        b
+    } else {
+        let mut b = vec![3u8];
+        b.extend_from_slice(&s.kid);
+        b
+    };
+    match s.alg {
+        25 => {
+            body.push(25);
+            let rp: [u8; 32] = s.rp.material[..].try_into().map_err(|_| "x25519 material")?;
+            let (eph, wrapped) = rfc::key::x25519_wrap(&rp, seed, sk).ok_or("x25519 wrap")?;
+            body.extend(eph);
+            if v6 {
+                body.push(wrapped.len() as u8);
+            } else {
+                body.push(1 + wrapped.len() as u8);
+                body.push(sym);
+            }
+            body.extend(wrapped);
+            Ok(body)
+        }
+        18 => {
+            body.push(18);
+            let ep = rfc::key::parse_ecdh_material(&s.rp.material).ok_or("ecdh material")?;
+            let plain = if v6 { rfc::sym::session_key_v6(sk) } else { rfc::sym::session_key_v3(sym, sk) };
+            body.extend(rfc::key::ecdh_wrap(&ep, &s.fp, seed, &plain).ok_or("ecdh wrap")?);
+            Ok(body)
+        }
+        _ => {
+            // RSA (no independent big-number arithmetic in the harness): library encoder
+            let enc = r.k.ssk.secret_subkeys[r.sub].key.public_key();
+            let raw: pgp::composed::RawSessionKey = sk.into();
+            let p = if v6 {
+                PublicKeyEncryptedSessionKey::from_session_key_v6(&mut *rng, &raw, enc)
+            } else {
+                PublicKeyEncryptedSessionKey::from_session_key_v3(&mut *rng, &raw, SymmetricKeyAlgorithm::from(sym), enc)
+            };
+            p.map_err(es)?.to_bytes().map_err(es)
+        }
+    }
+}
+
+const PW: &[u8] = b"correct horse";
+
+struct R1Params {
+    sym: u8,
+    aead: u8,
+    chunk: u8,
+    payload: Vec<u8>,
+}
+
+fn build_esk(e: EskK, r: &Rcpt, p: &R1Params, sk: &[u8], rng: &mut rand_chacha::ChaCha8Rng) -> Result<Vec<u8>, String> {
+    let mut seed = [0u8; 32];
+    rng.fill_bytes(&mut seed);
+    let mut salt8 = [0u8; 8];
+    rng.fill_bytes(&mut salt8);
+    let s2k = RefS2k::Iterated { hash: 8, salt: salt8, count: 16 };
+    Ok(match e {
+        EskK::P3 => fr(1, &build_pkesk(r, false, p.sym, sk, &seed, rng)?),
+        EskK::P6 => fr(1, &build_pkesk(r, true, p.sym, sk, &seed, rng)?),
+        EskK::S4 => fr(3, &rfc::sym::skesk_v4_encode(p.sym, &s2k, PW, Some((p.sym, sk))).ok_or("skesk4")?),
+        EskK::S5 => {
+            let iv: [u8; 15] = seed[..15].try_into().unwrap();
+            fr(3, &skesk_v5_encode(p.sym, &s2k, PW, &iv, sk).ok_or("skesk5")?)
+        }
+        EskK::S6 => {
+            let n = rfc::sym::aead_nonce_len(p.aead).ok_or("aead")?;
+            fr(3, &rfc::sym::skesk_v6_encode(p.sym, p.aead, &s2k, PW, &seed[..n], sk).ok_or("skesk6")?)
+        }
+    })
+}
+
+fn build_cont(c: Cont, p: &R1Params, sk: &[u8], rng: &mut rand_chacha::ChaCha8Rng) -> Result<Vec<u8>, String> {
+    let inner = lit_packet(&p.payload);
+    let bs = rfc::sym::block_size(p.sym).ok_or("cipher")?;
+    let mut prefix = vec![0u8; bs];
+    rng.fill_bytes(&mut prefix);
+    let mut salt = [0u8; 32];
+    rng.fill_bytes(&mut salt);
+    Ok(match c {
+        Cont::Sed => fr(9, &rfc::sym::sed_encrypt(p.sym, sk, &prefix, &inner).ok_or("sed")?),
+        Cont::V1 => {
+            let mut b = vec![1u8];
+            b.extend(rfc::sym::seipd_v1_encrypt(p.sym, sk, &prefix, &inner).ok_or("seipd1")?);
+            fr(18, &b)
+        }
+        Cont::V2 => fr(18, &rfc::sym::seipd_v2_encrypt(p.sym, p.aead, p.chunk, &salt, sk, &inner).ok_or("seipd2")?),
+        Cont::G20 => {
+            let iv: [u8; 15] = salt[..15].try_into().unwrap();
+            fr(20, &gnupg_aead_encrypt(p.sym, p.chunk, &iv, sk, &inner).ok_or("gnupg20")?)
+        }
+    })
+}
+
+#[derive(Debug, Clone, PartialEq, Eq)]
+enum Dec {
+    Plain(Vec<u8>),
+    Fail { stage: &'static str, err: String, missing_key: bool },
+}
+
+impl Dec {
+    fn brief(&self) -> String {
+        match self {
+            Dec::Plain(p) => format!("plaintext({} bytes)", p.len()),
+            Dec::Fail { stage, err, .. } => format!("{stage}: {err}"),
+        }
+    }
+}
+
+enum How<'a> {
+    Key(&'a SignedSecretKey),
+    KeyLegacy(&'a SignedSecretKey),
+    Pw,
+    Session(PlainSessionKey),
+    Ring { ssk: Option<&'a SignedSecretKey>, pw: bool, sess: Option<PlainSessionKey>, opts: Opts, abort_early: bool },
+}
+
+fn run_decrypt(bytes: &[u8], how: How<'_>) -> (Dec, Option<Vec<String>>) {
+    let m = match Message::from_bytes(bytes) {
+        Ok(m) => m,
+        Err(e) => return (Dec::Fail { stage: "parse", err: e.to_string(), missing_key: false }, None),
+    };
+    let esk_versions = match &m {
+        Message::Encrypted { esk, .. } => Some(
+            esk.iter()
+                .map(|e| match e {
+                    Esk::PublicKeyEncryptedSessionKey(p) => match p.version() {
+                        PkeskVersion::V3 => "pkesk3".to_string(),
+                        PkeskVersion::V6 => "pkesk6".to_string(),
+                        o => format!("pkesk{o:?}"),
+                    },
+                    Esk::SymKeyEncryptedSessionKey(s) => match s.version() {
+                        SkeskVersion::V4 => "skesk4".to_string(),
+                        SkeskVersion::V5 => "skesk5".to_string(),
+                        SkeskVersion::V6 => "skesk6".to_string(),
+                        o => format!("skesk{o:?}"),
+                    },
+                })
+                .collect::<Vec<_>>(),
+        ),
+        _ => None,
+    };
+    let empty = Password::empty();
+    let pw = Password::from(PW);
+    let r = match how {
+        How::Key(k) => m.decrypt(&empty, k),
+        How::KeyLegacy(k) => m.decrypt_legacy(&empty, k),
+        How::Pw => m.decrypt_with_password(&pw),
+        How::Session(s) => m.decrypt_with_session_key(s),
+        How::Ring { ssk, pw: use_pw, sess, opts, abort_early } => {
+            let ring = TheRing {
+                secret_keys: ssk.into_iter().collect(),
+                key_passwords: vec![&empty],
+                message_password: if use_pw { vec![&pw] } else { vec![] },
+                session_keys: sess.into_iter().collect(),
+                decrypt_options: opts.lib(),
+            };
+            m.decrypt_the_ring(ring, abort_early).map(|(m, _)| m)
+        }
+    };
+    let d = match r {
+        Err(e) => Dec::Fail { stage: "decrypt", missing_key: matches!(e, pgp::errors::Error::MissingKey), err: e.to_string() },
+        Ok(mut m) => match m.as_data_vec() {
+            Ok(d) => Dec::Plain(d),
+            Err(e) => Dec::Fail { stage: "read", err: e.to_string(), missing_key: false },
+        },
+    };
+    (d, esk_versions)
+}
+
+fn session_for(e: EskK, sym: u8, sk: &[u8]) -> PlainSessionKey {
+    match e {
+        EskK::P3 | EskK::S4 => PlainSessionKey::V3_4 { sym_alg: SymmetricKeyAlgorithm::from(sym), key: sk.into() },
+        EskK::S5 => PlainSessionKey::V5 { key: sk.into() },
+        EskK::P6 | EskK::S6 => PlainSessionKey::V6 { key: sk.into() },
+    }
+}
+
+/// Judges one decryption outcome of the R1/R5 table.
+#[allow(clippy::too_many_arguments)]
+fn judge_r1(
+    ctx: &mut Ctx,
+    path: &str,
+    e: EskK,
+    c: Cont,
+    o: Opts,
+    payload: &[u8],
+    d: &Dec,
+    baseline: Option<&Dec>,
+    replay: &serde_json::Value,
+) {
+    ctx.eval();
+    let case = format!("{}+{}/{}", e.name(), c.name(), o.name());
+    ctx.seen("R1.cells", format!("{path}|{case}"));
+    ctx.seen("R1.paths", path);
+    let al = aligned(e, c);
+    let opt = optin_ok(e, c, o);
+    let optin_cell = c == Cont::Sed || c == Cont::G20 || e == EskK::S5;
+    if optin_cell {
+        ctx.seen("R5.cells", format!("{path}|{case}"));
+    }
+    let rp = || json!({"path": path, "case": case, "outcome": d.brief(), "input": replay});
+    match d {
+        Dec::Plain(p) if p != payload => {
+            ctx.violation(format!("C15/R1/{path}/{case}/wrong-plaintext"), "decryption released a different plaintext", rp());
+        }
+        Dec::Plain(_) => {
+            if al == Some(false) {
+                ctx.violation(
+                    format!("C15/R1/{path}/{case}/accepted"),
+                    format!("{} in front of {} must be discarded (RFC 9580 10.3.2.1) but the message decrypted", e.name(), c.name()),
+                    rp(),
+                );
+            } else if !opt {
+                ctx.violation(
+                    format!("C15/R5/{path}/{case}/accepted-without-optin"),
+                    format!("{} / {} decrypted although the required DecryptionOptions opt-in is absent", e.name(), c.name()),
+                    rp(),
+                );
+            } else if al.is_none() {
+                ctx.tally("R1.unspecified-pairing.accepted", 1);
+            }
+        }
+        Dec::Fail { missing_key, .. } => {
+            if al == Some(true) && opt {
+                let rule = if optin_cell { "R5" } else { "R1" };
+                ctx.violation(
+                    format!("C15/{rule}/{path}/{case}/rejected-unexpectedly"),
+                    format!("aligned {} + {} with the needed opt-in failed: {}", e.name(), c.name(), d.brief()),
+                    rp(),
+                );
+            } else if al == Some(false) {
+                // "ignored": the message must behave exactly like the same message without the ESK
+                if let Some(b) = baseline {
+                    if b != d || !missing_key {
+                        ctx.violation(
+                            format!("C15/R1/{path}/{case}/not-ignored"),
+                            format!("misaligned ESK is not discarded: outcome '{}' but the message without that ESK gives '{}'", d.brief(), b.brief()),
+                            rp(),
+                        );
+                    }
+                }
+            } else if al.is_none() {
+                ctx.tally("R1.unspecified-pairing.rejected", 1);
+            } else if e == EskK::S5 && !o.gnupg {
+                // documented: v5 SKESK support is part of the gnupg opt-in; without it the packet
+                // must not be used at all, i.e. the message behaves as if it were absent
+                if let Some(b) = baseline {
+                    if b != d || !missing_key {
+                        ctx.violation(
+                            format!("C15/R5/{path}/{case}/skesk5-used-without-optin"),
+                            format!("v5 SKESK processed without enable_gnupg_aead: outcome '{}' but without the packet '{}'", d.brief(), b.brief()),
+                            rp(),
+                        );
+                    }
+                }
+            }
+        }
+    }
+}
+
+fn r1_params(ctx: &Ctx) -> Vec<R1Params> {
+    let mut v = vec![R1Params { sym: 7, aead: 2, chunk: 0, payload: (0..150u8).collect() }];
+    if !ctx.quick() {
+        v.push(R1Params { sym: 9, aead: 1, chunk: 1, payload: (0..=255u8).cycle().take(700).collect() });
+        v.push(R1Params { sym: 8, aead: 3, chunk: 6, payload: b"x".to_vec() });
+    }
+    v
+}
+
+fn run_r1(ctx: &mut Ctx, rcpts: &[Rcpt]) {
+    let params = r1_params(ctx);
+    let mut gi = 0u64;
+    for (pi, p) in params.iter().enumerate() {
+        for r in rcpts {
+            for c in CONTS {
+                // ---- single ESK table
+                for e in ESKS {
+                    gi += 1;
+                    if !ctx.mine() {
+                        continue;
+                    }
+                    describe_case(&format!("R1 single {} {} {} p{pi}", r.k.name, e.name(), c.name()));
+                    let mut rng = ctx.rng("R1", gi);
+                    let ks = rfc::sym::key_size(p.sym).unwrap();
+                    let mut sk = vec![0u8; ks];
+                    rng.fill_bytes(&mut sk);
+                    let (esk, cont) = match (build_esk(e, r, p, &sk, &mut rng), build_cont(c, p, &sk, &mut rng)) {
+                        (Ok(a), Ok(b)) => (a, b),
+                        (a, b) => {
+                            ctx.inconclusive(format!("R1 generator: {:?} {:?}", a.err(), b.err()));
+                            continue;
+                        }
+                    };
+                    let mut msg = esk.clone();
+                    msg.extend_from_slice(&cont);
+                    let replay = json!({"key": r.k.name, "msg": hexs(&msg), "session_key": hexs(&sk), "password": String::from_utf8_lossy(PW)});
+                    ctx.cover(&("R1", &r.k.name, e, c, pi));
+                    if gi % 7 == 0 {
+                        ctx.sample(json!({"rule": "R1", "esk": e.name(), "container": c.name(), "msg": hexs(&msg)}));
+                    }
+                    // direct observation of the filter
+                    let (_, versions) = run_decrypt(&msg, How::Session(session_for(e, p.sym, &sk)));
+                    ctx.eval();
+                    ctx.seen("R1.paths", "parsed-esk-list");
+                    match (&versions, aligned(e, c)) {
+                        (Some(v), Some(false)) if !v.is_empty() => ctx.violation(
+                            format!("C15/R1/parsed-esk-list/{}+{}/not-ignored", e.name(), c.name()),
+                            format!("Message::Encrypted keeps misaligned ESK(s) {v:?} in front of {}", c.name()),
+                            replay.clone(),
+                        ),
+                        (Some(v), Some(true)) if v.len() != 1 => ctx.violation(
+                            format!("C15/R1/parsed-esk-list/{}+{}/rejected-unexpectedly", e.name(), c.name()),
+                            format!("aligned ESK dropped by the parser: {v:?}"),
+                            replay.clone(),
+                        ),
+                        (None, _) => ctx.inconclusive("R1: reference-built message does not parse as encrypted"),
+                        _ => {}
+                    }
+                    for o in OPTS {
+                        for abort_early in [true, false] {
+                            let path = if abort_early { "ring-abort-early" } else { "ring-compare-all" };
+                            let (base, _) = run_decrypt(&cont, How::Ring { ssk: Some(&r.k.ssk), pw: true, sess: None, opts: o, abort_early });
+                            let (d, _) = run_decrypt(&msg, How::Ring { ssk: Some(&r.k.ssk), pw: true, sess: None, opts: o, abort_early });
+                            judge_r1(ctx, path, e, c, o, &p.payload, &d, Some(&base), &replay);
+                        }
+                        // convenience entry points have fixed options
+                        if e.is_pk() && !o.gnupg {
+                            let (path, how, bhow) = if o.legacy {
+                                ("decrypt_legacy", How::KeyLegacy(&r.k.ssk), How::KeyLegacy(&r.k.ssk))
+                            } else {
+                                ("decrypt", How::Key(&r.k.ssk), How::Key(&r.k.ssk))
+                            };
+                            let (base, _) = run_decrypt(&cont, bhow);
+                            let (d, _) = run_decrypt(&msg, how);
+                            judge_r1(ctx, path, e, c, o, &p.payload, &d, Some(&base), &replay);
+                        }
+                        if !e.is_pk() && !o.gnupg && !o.legacy {
+                            let (base, _) = run_decrypt(&cont, How::Pw);
+                            let (d, _) = run_decrypt(&msg, How::Pw);
+                            judge_r1(ctx, "decrypt_with_password", e, c, o, &p.payload, &d, Some(&base), &replay);
+                        }
+                        // explicit session key of the ESK's generation against the bare container
+                        let (d, _) = run_decrypt(&cont, How::Ring { ssk: None, pw: false, sess: Some(session_for(e, p.sym, &sk)), opts: o, abort_early: true });
+                        judge_r1(ctx, "session-key", e, c, o, &p.payload, &d, None, &replay);
+                        if !o.gnupg && !o.legacy {
+                            let (d, _) = run_decrypt(&cont, How::Session(session_for(e, p.sym, &sk)));
+                            judge_r1(ctx, "decrypt_with_session_key", e, c, o, &p.payload, &d, None, &replay);
+                        }
+                    }
+                }
+                // ---- a misaligned ESK next to an aligned one: the message must still decrypt
+                for m in ESKS {
+                    for a in ESKS {
+                        if aligned(m, c) != Some(false) || aligned(a, c) != Some(true) {
+                            continue;
+                        }
+                        gi += 1;
+                        if !ctx.mine() {
+                            continue;
+                        }
+                        describe_case(&format!("R1 pair {} {}+{} {} p{pi}", r.k.name, m.name(), a.name(), c.name()));
+                        let mut rng = ctx.rng("R1pair", gi);
+                        let mut sk = vec![0u8; rfc::sym::key_size(p.sym).unwrap()];
+                        rng.fill_bytes(&mut sk);
+                        let (em, ea, cont) = match (build_esk(m, r, p, &sk, &mut rng), build_esk(a, r, p, &sk, &mut rng), build_cont(c, p, &sk, &mut rng)) {
+                            (Ok(x), Ok(y), Ok(z)) => (x, y, z),
+                            _ => {
+                                ctx.inconclusive("R1 pair generator failed");
+                                continue;
+                            }
+                        };
+                        ctx.cover(&("R1pair", &r.k.name, m, a, c, pi));
+                        for (order, first, second) in [("misaligned-first", &em, &ea), ("aligned-first", &ea, &em)] {
+                            let mut msg = first.clone();
+                            msg.extend_from_slice(second);
+                            msg.extend_from_slice(&cont);
+                            let replay = json!({"key": r.k.name, "msg": hexs(&msg), "order": order});
+                            for o in OPTS {
+                                for abort_early in [true, false] {
+                                    ctx.eval();
+                                    let path = if abort_early { "ring-abort-early" } else { "ring-compare-all" };
+                                    let case = format!("{}-beside-{}+{}/{}", m.name(), a.name(), c.name(), o.name());
+                                    ctx.seen("R1.pair-cells", format!("{path}|{order}|{case}"));
+                                    let (d, _) = run_decrypt(&msg, How::Ring { ssk: Some(&r.k.ssk), pw: true, sess: None, opts: o, abort_early });
+                                    let want = optin_ok(a, c, o);
+                                    match (&d, want) {
+                                        (Dec::Plain(x), true) if x == &p.payload => {}
+                                        (Dec::Fail { .. }, false) => {}
+                                        (Dec::Plain(_), false) => ctx.violation(
+                                            format!("C15/R5/{path}/{case}/accepted-without-optin"),
+                                            "decrypted although the required opt-in is absent",
+                                            replay.clone(),
+                                        ),
+                                        (Dec::Plain(_), true) => ctx.violation(format!("C15/R1/{path}/{case}/wrong-plaintext"), "different plaintext", replay.clone()),
+                                        (Dec::Fail { .. }, true) => ctx.violation(
+                                            format!("C15/R1/{path}/{case}/not-ignored"),
+                                            format!("a misaligned {} beside an aligned {} ({order}) must be discarded and the message decrypt; got {}", m.name(), a.name(), d.brief()),
+                                            replay.clone(),
+                                        ),
+                                    }
+                                }
+                            }
+                        }
+                    }
+                }
+            }
+        }
+    }
+}
+
+// ---------------------------------------------------------------------------------------------
+// R3: one-pass header vs trailing signature
+
+fn run_r3(ctx: &mut Ctx, keys: &[&K]) {
+    for k in keys {
+        if !ctx.mine() {
+            continue;
+        }
+        describe_case(&format!("R3 {}", k.name));
+        let sv = if k.v == 6 { 6 } else { 4 };
+        let sk: &dyn SigningKey = &k.ssk.primary_key;
+        let (honest, honest_text) = match (build_sig(k, &Scn::plain(sv), Kind::DocBin), build_sig(k, &Scn::plain(sv), Kind::DocText)) {
+            (Ok(a), Ok(b)) => (a, b),
+            _ => {
+                ctx.inconclusive("R3: cannot build base signature");
+                continue;
+            }
+        };
+        let rs = parse_sig(&honest).expect("own");
+        let ops0 = rfc::sig::parse_ops(&ops_for(&rs, k)).expect("own ops");
+        let tail = rs.hashed_tail();
+        let other_hash = if k.hash == 8 { 10 } else { 8 };
+        let other_salt: Vec<u8> = rs.salt.iter().map(|b| b ^ 0x5A).collect();
+        let mut fp32 = k.fp.clone();
+        fp32.resize(32, 0);
+        // (case, ops, signature body, expect valid, judged)
+        let mut cases: Vec<(&str, RefOps, Vec<u8>, bool, bool)> = vec![];
+        cases.push(("control", ops0.clone(), honest.clone(), true, true));
+        cases.push(("ops-type", RefOps { typ: 1, ..ops0.clone() }, honest.clone(), false, true));
+        cases.push(("ops-type-text", RefOps { typ: 0, ..ops0.clone() }, honest_text.clone(), false, true));
+        cases.push(("ops-hash", RefOps { hash_alg: other_hash, salt: if sv == 6 { salt_for(other_hash, 0) } else { vec![] }, ..ops0.clone() }, honest.clone(), false, true));
+        cases.push(("ops-pubalg", RefOps { pub_alg: if k.alg == 1 { 22 } else { 1 }, ..ops0.clone() }, honest.clone(), false, true));
+        // signature whose value is valid under the *header's* hash algorithm (same digest size)
+        {
+            let mut parts: Vec<&[u8]> = vec![];
+            if sv == 6 {
+                parts.push(&rs.salt);
+            }
+            parts.push(DATA);
+            parts.push(&tail);
+            let d = rfc::hash(k.alt_hash, &parts).expect("sha3");
+            match finish(sk, rs.clone(), &d, k.hash) {
+                Ok(b) => cases.push(("ops-hash-crafted", RefOps { hash_alg: k.alt_hash, ..ops0.clone() }, b, false, true)),
+                Err(e) => ctx.inconclusive(format!("R3 crafted hash: {e}")),
+            }
+        }
+        if sv == 4 {
+            let s1 = salt_for(k.hash, 1);
+            let o6 = RefOps { version: 6, salt: s1.clone(), issuer: fp32.clone(), ..ops0.clone() };
+            cases.push(("ops-version", o6.clone(), honest.clone(), false, true));
+            let d = rfc::hash(k.hash, &[&s1, DATA, &tail]).unwrap();
+            match finish(sk, rs.clone(), &d, k.hash) {
+                Ok(b) => cases.push(("ops-version-crafted", o6, b, false, true)),
+                Err(e) => ctx.inconclusive(format!("R3 crafted version: {e}")),
+            }
+        } else {
+            let o3 = RefOps { version: 3, salt: vec![], issuer: k.kid.to_vec(), ..ops0.clone() };
+            cases.push(("ops-version", o3.clone(), honest.clone(), false, true));
+            let d = rfc::hash(k.hash, &[DATA, &tail]).unwrap();
+            match finish(sk, rs.clone(), &d, k.hash) {
+                Ok(b) => cases.push(("ops-version-crafted", o3, b, false, true)),
+                Err(e) => ctx.inconclusive(format!("R3 crafted version: {e}")),
+            }
+            cases.push(("ops-salt", RefOps { salt: other_salt.clone(), ..ops0.clone() }, honest.clone(), false, true));
+            let d = rfc::hash(k.hash, &[&other_salt, DATA, &tail]).unwrap();
+            match finish(sk, rs.clone(), &d, k.hash) {
+                Ok(b) => cases.push(("ops-salt-crafted", RefOps { salt: other_salt.clone(), ..ops0.clone() }, b, false, true)),
+                Err(e) => ctx.inconclusive(format!("R3 crafted salt: {e}")),
+            }
+            cases.push(("ops-salt-length", RefOps { salt: salt_for(other_hash, 3), ..ops0.clone() }, honest.clone(), false, true));
+        }
+        // advisory field: exercised, not judged
+        let zero_issuer = vec![0u8; ops0.issuer.len()];
+        let other_issuer: Vec<u8> = ops0.issuer.iter().map(|b| b ^ 0xFF).collect();
+        cases.push(("ops-issuer-zero", RefOps { issuer: zero_issuer, ..ops0.clone() }, honest.clone(), true, false));
+        cases.push(("ops-issuer-other", RefOps { issuer: other_issuer, ..ops0.clone() }, honest.clone(), true, false));
+
+        let pk = &k.spk.primary_key;
+        for (case, ops, sig, expect, judged) in cases {
+            let mut msg = fr(4, &ops.encode());
+            msg.extend(lit_packet(DATA));
+            msg.extend(fr(2, &sig));
+            let mut res = vec![
+                ("inline-onepass/verify_read".to_string(), inline_verify(pk, &msg, 0)),
+                ("inline-onepass/verify".to_string(), inline_verify(pk, &msg, 1)),
+                ("inline-onepass/verify_nested".to_string(), inline_verify(pk, &msg, 2)),
+            ];
+            if !ctx.quick() {
+                let arm = rfc::armor::armor_encode("PGP MESSAGE", &[], &msg, true, "\r\n");
+                res.push((
+                    "inline-onepass/armored".into(),
+                    Message::from_armor(arm.as_bytes())
+                        .map_err(|e| format!("parse: {e}"))
+                        .and_then(|(mut m, _)| m.verify_read(pk).map(|_| ()).map_err(es)),
+                ));
+            }
+            if judged {
+                if case == "control" {
+                    ctx.sample(json!({"rule": "R3", "case": case, "msg": hexs(&msg)}));
+                }
+                judge_paths(ctx, "R3", case, k, res, expect, json!({"msg": hexs(&msg)}));
+            } else {
+                for (p, v) in res {
+                    ctx.eval();
+                    ctx.seen("R3.advisory", format!("{p}|{case}"));
+                    ctx.tally(&format!("R3.advisory.{case}.{}", if v.is_ok() { "valid" } else { "invalid" }), 1);
+                }
+            }
+        }
+    }
+}
+
+// ---------------------------------------------------------------------------------------------
+// R2: key version x signature version
+
+/// Binding signature (made by `p`, version = p's version) over a subkey that is not p's own.
+fn bind_foreign(p: &K, sub_pub_body: &[u8]) -> Result<Vec<u8>, String> {
+    let sv = if p.v == 6 { 6 } else { 4 };
+    let mut hashed = sp(2, false, &CTIME.to_be_bytes());
+    let mut fpb = vec![p.v];
+    fpb.extend_from_slice(&p.fp);
+    hashed.extend(sp(33, false, &fpb));
+    hashed.extend(sp(27, false, &[0x0C]));
+    let salt = if sv == 6 { salt_for(p.hash, 0x18) } else { vec![] };
+    let rs = tmpl(sv, 0x18, p.alg, p.hash, hashed, vec![], salt);
+    make_sig(&p.ssk.primary_key, rs, &[&rfc::sig::key_hash_framing(&p.pbody), &rfc::sig::key_hash_framing(sub_pub_body)])
+}
+
+/// TSK packets of `p` followed by the (secret) encryption subkey of `f` bound by `p`.
+fn foreign_subkey_cert(p: &K, f: &K) -> Result<Vec<Pk>, String> {
+    let mut pk = tsk_packets(&p.ssk)?;
+    let fi = f.enc_sub().ok_or("no enc subkey")?;
+    let fp = tsk_packets(&f.ssk)?;
+    let sub = fp.iter().filter(|x| x.tag == 7).nth(fi).ok_or("layout")?.clone();
+    let sig = bind_foreign(p, &f.subs[fi].pub_body)?;
+    pk.push(sub);
+    pk.push(Pk { tag: 2, body: sig });
+    Ok(pk)
+}
+
+fn run_r2(ctx: &mut Ctx, keys: &[&K], k4: &K, k6: &K) {
+    let thorough = !ctx.quick();
+    for k in keys {
+        if !ctx.mine() {
+            continue;
+        }
+        describe_case(&format!("R2 {}", k.name));
+        let aligned_v = if k.v == 6 { 6 } else { 4 };
+        let wrong_v = if k.v == 6 { 4 } else { 6 };
+        for with_fp in [true, false] {
+            let mut s = Scn::plain(aligned_v);
+            s.issuer_fp = with_fp;
+            let r = run_sig_paths(k, &s, thorough);
+            judge_paths(ctx, "R2", "control", k, r, true, json!({"sig_version": aligned_v, "issuer_fp": with_fp}));
+        }
+        let case = if k.v == 6 { "v4sig-by-v6key" } else { "v6sig-by-v4key" };
+        // without issuer subpackets (isolates the alignment rule), and with an issuer key id
+        for with_kid in [false, true] {
+            let mut s = Scn::plain(wrong_v);
+            s.issuer_fp = false;
+            s.issuer_kid = with_kid;
+            let r = run_sig_paths(k, &s, thorough);
+            judge_paths(ctx, "R2", case, k, r, false, json!({"sig_version": wrong_v, "issuer_kid": with_kid}));
+        }
+    }
+    // ---- subkey version vs primary version
+    for (p, f, case, judged) in [(k6, k4, "v6primary-v4subkey", true), (k4, k6, "v4primary-v6subkey", JUDGE_V4_PRIMARY_V6_SUBKEY)] {
+        if !ctx.mine() {
+            continue;
+        }
+        describe_case(&format!("R2 {case}"));
+        let pk = match foreign_subkey_cert(p, f) {
+            Ok(x) => x,
+            Err(e) => {
+                ctx.inconclusive(format!("R2 {case}: {e}"));
+                continue;
+            }
+        };
+        let tsk = ser(&pk);
+        let Some(tp) = to_tpk(&pk) else {
+            ctx.inconclusive("R2: to_tpk");
+            continue;
+        };
+        let tpk = ser(&tp);
+        // control: the same construction with a subkey of the right version must be accepted
+        let res = vec![("cert-foreign-subkey/tsk".to_string(), tsk_verdict(&tsk)), ("cert-foreign-subkey/tpk".to_string(), tpk_verdict(&tpk))];
+        if judged {
+            judge_paths(ctx, "R2", case, p, res, false, json!({"tsk": hexs(&tsk)}));
+        } else {
+            for (path, v) in res {
+                ctx.eval();
+                ctx.seen("R2.advisory", format!("{path}|{case}"));
+                ctx.tally(&format!("R2.advisory.{case}.{}", if v.is_ok() { "accepted" } else { "rejected" }), 1);
+                if v.is_ok() {
+                    ctx.note(format!("R2 advisory: {case} accepted on {path} (RFC 9580 10.1.1 demands v4 subkeys for v4 primaries; outside the property text, not judged)"));
+                }
+            }
+        }
+    }
+    // control for the foreign-subkey construction: same-version donor
+    for (p, spec_v6) in [(k4, false), (k6, true)] {
+        if !ctx.mine() {
+            continue;
+        }
+        let donor = if spec_v6 {
+            K::load(&Spec { sign_sub: None, ..Spec::simple(true, Alg::Ed25519, Some(Alg::X25519)) }, 5)
+        } else {
+            K::load(&Spec { sign_sub: None, ..Spec::simple(false, Alg::Ed25519Legacy, Some(Alg::X25519)) }, 5)
+        };
+        let r = donor.and_then(|d| foreign_subkey_cert(p, &d));
+        match r {
+            Ok(pk) => {
+                let tsk = ser(&pk);
+                let tpk = ser(&to_tpk(&pk).unwrap_or_default());
+                let res = vec![("cert-foreign-subkey/tsk".to_string(), tsk_verdict(&tsk)), ("cert-foreign-subkey/tpk".to_string(), tpk_verdict(&tpk))];
+                judge_paths(ctx, "R2", "control-foreign-subkey", p, res, true, json!({"tsk": hexs(&tsk)}));
+            }
+            Err(e) => ctx.inconclusive(format!("R2 foreign control: {e}")),
+        }
+    }
+}
+
+// ---------------------------------------------------------------------------------------------
+// R4: hashed subpacket ids x critical bit; issuer fingerprint version
+
+/// A well-formed body for subpacket `id` (of that kind where the library knows the id).
+fn subpacket_body(id: u8, k: &K, embedded: &[u8]) -> Vec<u8> {
+    match id {
+        2 => CTIME.to_be_bytes().to_vec(),
+        3 | 9 => vec![0, 0, 0, 0],
+        4 | 7 | 25 => vec![1],
+        5 => vec![1, 60],
+        6 => b"<[^>]+[@.]example\\.org>$\0".to_vec(),
+        11 => vec![9, 7],
+        12 => {
+            let mut b = vec![0x80, 22];
+            b.extend_from_slice(&[0x11; 20]);
+            b
+        }
+        16 => k.kid.to_vec(),
+        20 => {
+            let mut b = vec![0x80, 0, 0, 0, 0, 11, 0, 2];
+            b.extend_from_slice(b"a@b.example");
+            b.extend_from_slice(b"xy");
+            b
+        }
+        21 => vec![8, 10],
+        22 => vec![2, 1],
+        23 => vec![0x80],
+        24 => b"hkps://keys.example".to_vec(),
+        26 => b"https://example.org/policy".to_vec(),
+        27 => vec![0x0C],
+        28 => b"alice@example.org".to_vec(),
+        29 => vec![0, b'x'],
+        30 => vec![0x01],
+        31 => {
+            let mut b = vec![22, 8];
+            b.extend_from_slice(&[0x22; 32]);
+            b
+        }
+        32 => embedded.to_vec(),
+        33 | 35 => {
+            let mut b = vec![k.v];
+            b.extend_from_slice(&k.fp);
+            b
+        }
+        34 => vec![2],
+        39 => vec![9, 2],
+        _ => vec![0x01, 0x02, id],
+    }
+}
+
+#[derive(Clone, Copy, PartialEq, Eq, Debug)]
+enum SpClass {
+    Known,
+    Experimental,
+    Other,
+}
+
+/// How the *library's parser* classifies the last hashed subpacket of this signature.
+fn classify_last(body: &[u8]) -> Result<(SpClass, bool), String> {
+    let s = lib_sig(body)?;
+    let c = s.config().ok_or("unknown signature version")?;
+    let last = c.hashed_subpackets.last().ok_or("no hashed subpackets")?;
+    let cls = match (&last.data, last.typ()) {
+        (SubpacketData::Other(..), _) | (_, SubpacketType::Other(_)) => SpClass::Other,
+        (SubpacketData::Experimental(..), _) => SpClass::Experimental,
+        _ => SpClass::Known,
+    };
+    Ok((cls, last.is_critical))
+}
+
+fn run_r4(ctx: &mut Ctx, keys: &[&K]) {
+    let thorough = !ctx.quick();
+    for (ki, k) in keys.iter().enumerate() {
+        let sv = if k.v == 6 { 6 } else { 4 };
+        let embedded = build_sig(k, &Scn::plain(sv), Kind::DocBin).unwrap_or_default();
+        // quick: the complete id sweep on the first v4 and the first v6 key, a sample of ids
+        // (unknown, known, experimental, boundaries) on the other algorithms
+        let full = thorough || ki < 2;
+        for id in 0u8..128 {
+            if !full && ![0u8, 1, 2, 10, 16, 33, 40, 99, 100, 110, 111, 127].contains(&id) {
+                continue;
+            }
+            if !ctx.mine() {
+                continue;
+            }
+            describe_case(&format!("R4 {} id {id}", k.name));
+            for critical in [false, true] {
+                let mut s = Scn::plain(sv);
+                s.extra = sp(id, critical, &subpacket_body(id, k, &embedded));
+                let probe = match build_sig(k, &s, Kind::DocBin) {
+                    Ok(b) => b,
+                    Err(e) => {
+                        ctx.inconclusive(format!("R4 build: {e}"));
+                        continue;
+                    }
+                };
+                // the reference view of what was built
+                let rs = parse_sig(&probe).expect("own");
+                let subs = parse_subpackets(&rs.hashed).expect("own area");
+                let l = subs.last().expect("own extra");
+                assert!(l.typ == id && l.critical == critical);
+                let (cls, crit_seen) = match classify_last(&probe) {
+                    Ok(x) => x,
+                    Err(e) => {
+                        // the library refuses the packet at parse time: a rejection. Only a
+                        // violation if it had to be accepted, which needs the class: ids the
+                        // reference table marks well-formed must parse.
+                        ctx.seen("R4.ids", format!("{id}"));
+                        ctx.eval();
+                        ctx.violation(
+                            format!("C15/R4/sig-parse/{}/rejected-unexpectedly", if critical { "critical" } else { "noncritical" }),
+                            format!("signature with an extra well-formed hashed subpacket id {id} does not parse: {e}"),
+                            json!({"id": id, "critical": critical, "sig": hexs(&probe), "key": k.name}),
+                        );
+                        continue;
+                    }
+                };
+                if crit_seen != critical {
+                    ctx.violation("C15/R4/sig-parse/critical-bit/lost", format!("critical bit of subpacket {id} parsed as {crit_seen}"), json!({"id": id, "sig": hexs(&probe)}));
+                }
+                ctx.seen("R4.ids", format!("{id}"));
+                ctx.seen("R4.classes", format!("{cls:?}-{}", if critical { "critical" } else { "noncritical" }));
+                let case = match (critical, cls) {
+                    (true, SpClass::Other) => "critical-unknown",
+                    (false, SpClass::Other) => "noncritical-unknown",
+                    (true, SpClass::Experimental) => "critical-experimental",
+                    (false, SpClass::Experimental) => "noncritical-experimental",
+                    (true, SpClass::Known) => "critical-known",
+                    (false, SpClass::Known) => "noncritical-known",
+                };
+                let res = run_sig_paths(k, &s, thorough);
+                if case == "critical-experimental" && !JUDGE_CRITICAL_EXPERIMENTAL {
+                    for (p, v) in res {
+                        ctx.eval();
+                        ctx.seen("R4.advisory", format!("{p}|{case}"));
+                        ctx.tally(&format!("R4.advisory.{case}.{}", if v.is_ok() { "accepted" } else { "rejected" }), 1);
+                    }
+                    ctx.note("R4 advisory: critical subpackets in the private/experimental range 100..=110 are parsed to SubpacketData::Experimental and are not rejected (RFC 9580 5.2.3.7 SHOULD); tallied, not judged");
+                    continue;
+                }
+                let expect = !(critical && cls != SpClass::Known);
+                if id == 77 || id == 2 {
+                    ctx.sample(json!({"rule": "R4", "id": id, "critical": critical, "class": format!("{cls:?}"), "sig": hexs(&probe)}));
+                }
+                // keep the id in the replay, not in the signature
+                let res2: Vec<(String, V)> = res;
+                judge_paths_r4(ctx, case, k, res2, expect, id, critical);
+            }
+        }
+        // ---- issuer fingerprint whose key version octet differs from the signature version
+        if !ctx.mine() {
+            continue;
+        }
+        describe_case(&format!("R4 issuer-fp {}", k.name));
+        let mut ctl = Scn::plain(sv);
+        ctl.issuer_kid = true;
+        let r = run_sig_paths(k, &ctl, thorough);
+        judge_paths(ctx, "R4", "control-issuer-fp", k, r, true, json!({}));
+        let mut fp32 = k.fp.clone();
+        fp32.resize(32, 0xAB);
+        let variants: Vec<(&str, Vec<u8>)> = if sv == 4 {
+            vec![("issuer-fp-v6-in-v4sig", [vec![6u8], fp32.clone()].concat()), ("issuer-fp-v5-in-v4sig", [vec![5u8], fp32.clone()].concat())]
+        } else {
+            vec![("issuer-fp-v4-in-v6sig", [vec![4u8], k.fp[..20].to_vec()].concat()), ("issuer-fp-v5-in-v6sig", [vec![5u8], k.fp.clone()].concat())]
+        };
+        for (case, body) in variants {
+            let mut s = Scn::plain(sv);
+            s.issuer_kid = true;
+            s.fp_body = Some(body.clone());
+            let r = run_sig_paths(k, &s, thorough);
+            judge_paths(ctx, "R4", case, k, r, false, json!({"issuer_fp_subpacket": hexs(&body)}));
+        }
+    }
+}
+
+fn judge_paths_r4(ctx: &mut Ctx, case: &str, k: &K, res: Vec<(String, V)>, expect: bool, id: u8, critical: bool) {
+    ctx.cover(&("R4id", id, critical, &k.name));
+    judge_paths(ctx, "R4", case, k, res, expect, json!({"subpacket_id": id, "critical": critical}));
+}
+
+// ---------------------------------------------------------------------------------------------
+// R6: the same certificate as TPK and as TSK
+
+fn flip_sig_value(body: &[u8]) -> Option<Vec<u8>> {
+    let mut rs = parse_sig(body).ok()?;
+    let n = rs.sig_data.len();
+    if n == 0 {
+        return None;
+    }
+    rs.sig_data[n - 1] ^= 0x01;
+    Some(rs.encode())
+}
+
+/// Subkey binding for the signing subkey made by the primary; `back`: embedded signature or none.
+fn sign_sub_binding(k: &K, si: usize, back: Option<&[u8]>) -> Result<Vec<u8>, String> {
+    let sv = if k.v == 6 { 6 } else { 4 };
+    let mut hashed = sp(2, false, &CTIME.to_be_bytes());
+    let mut fpb = vec![k.v];
+    fpb.extend_from_slice(&k.fp);
+    hashed.extend(sp(33, false, &fpb));
+    hashed.extend(sp(27, false, &[0x02]));
+    if let Some(b) = back {
+        hashed.extend(sp(32, false, b));
+    }
+    let salt = if sv == 6 { salt_for(k.hash, 0x18) } else { vec![] };
+    let rs = tmpl(sv, 0x18, k.alg, k.hash, hashed, vec![], salt);
+    make_sig(&k.ssk.primary_key, rs, &[&rfc::sig::key_hash_framing(&k.pbody), &rfc::sig::key_hash_framing(&k.subs[si].pub_body)])
+}
+
+fn run_r6(ctx: &mut Ctx, keys: &[&K], k4: &K, k6: &K) {
+    let thorough = !ctx.quick();
+    // (case, key, packets, expected acceptance, judged expectation)
+    let mut cases: Vec<(String, &K, Vec<Pk>, bool, bool)> = vec![];
+    for k in keys {
+        let Ok(base) = tsk_packets(&k.ssk) else {
+            ctx.inconclusive("R6: cannot deframe key");
+            continue;
+        };
+        let (Some(si), Some(ei)) = (k.sign_sub(), k.enc_sub()) else {
+            ctx.inconclusive("R6: key lacks subkeys");
+            continue;
+        };
+        let (Some(i_sign), Some(i_enc), Some(i_uid)) = (sig_after(&base, &[7], si), sig_after(&base, &[7], ei), sig_after(&base, &[13], 0)) else {
+            ctx.inconclusive("R6: unexpected certificate layout");
+            continue;
+        };
+        cases.push(("valid".into(), *k, base.clone(), true, true));
+        let good_back = build_sig(k, &Scn::plain(k.subs[si].v), Kind::PrimBind);
+        match sign_sub_binding(k, si, None) {
+            Ok(b) => {
+                let mut p = base.clone();
+                p[i_sign].body = b;
+                cases.push(("no-backsig".into(), *k, p, false, true));
+            }
+            Err(e) => ctx.inconclusive(format!("R6 no-backsig: {e}")),
+        }
+        match good_back.as_ref().map_err(|e| e.clone()).and_then(|g| sign_sub_binding(k, si, Some(g))) {
+            Ok(b) => {
+                let mut p = base.clone();
+                p[i_sign].body = b;
+                cases.push(("rebuilt-backsig".into(), *k, p, true, true));
+            }
+            Err(e) => ctx.inconclusive(format!("R6 rebuilt-backsig: {e}")),
+        }
+        match good_back.as_ref().ok().and_then(|g| flip_sig_value(g)).ok_or("flip".to_string()).and_then(|bad| sign_sub_binding(k, si, Some(&bad))) {
+            Ok(b) => {
+                let mut p = base.clone();
+                p[i_sign].body = b;
+                cases.push(("bad-backsig".into(), *k, p, false, true));
+            }
+            Err(e) => ctx.inconclusive(format!("R6 bad-backsig: {e}")),
+        }
+        for (name, idx) in [("bad-subkey-binding", i_enc), ("bad-uid-cert", i_uid)] {
+            match flip_sig_value(&base[idx].body) {
+                Some(b) => {
+                    let mut p = base.clone();
+                    p[idx].body = b;
+                    cases.push((name.into(), *k, p, false, true));
+                }
+                None => ctx.inconclusive(format!("R6 {name}: cannot tamper")),
+            }
+        }
+    }
+    match foreign_subkey_cert(k6, k4) {
+        Ok(p) => cases.push(("v6primary-v4subkey".into(), k6, p, false, true)),
+        Err(e) => ctx.inconclusive(format!("R6 foreign: {e}")),
+    }
+    match foreign_subkey_cert(k4, k6) {
+        Ok(p) => cases.push(("v4primary-v6subkey".into(), k4, p, false, JUDGE_V4_PRIMARY_V6_SUBKEY)),
+        Err(e) => ctx.inconclusive(format!("R6 foreign: {e}")),
+    }
+
+    for (case, k, pk, expect, judged) in cases {
+        if !ctx.mine() {
+            continue;
+        }
+        describe_case(&format!("R6 {case} {}", k.name));
+        let tsk = ser(&pk);
+        let mut forms: Vec<(String, V)> = vec![];
+        forms.push(("tsk-bytes".into(), tsk_verdict(&tsk)));
+        match to_tpk(&pk) {
+            Some(t) => forms.push(("tpk-reframed".into(), tpk_verdict(&ser(&t)))),
+            None => ctx.inconclusive("R6: to_tpk"),
+        }
+        // TSK whose subkeys are carried as public subkey packets
+        let mixed: Option<Vec<Pk>> = pk
+            .iter()
+            .map(|x| {
+                if x.tag == 7 {
+                    let (_, n) = RefPub::parse_prefix(&x.body)?;
+                    Some(Pk { tag: 14, body: x.body[..n].to_vec() })
+                } else {
+                    Some(x.clone())
+                }
+            })
+            .collect();
+        if let Some(m) = mixed {
+            forms.push(("tsk-public-subkeys".into(), tsk_verdict(&ser(&m))));
+        }
+        // library conversion secret -> public, as struct and re-serialised
+        match SignedSecretKey::from_bytes(&tsk[..]) {
+            Ok(s) => {
+                let p = s.to_public_key();
+                forms.push(("tpk-to_public_key".into(), p.verify_bindings().map_err(es)));
+                match p.to_bytes() {
+                    Ok(b) => forms.push(("tpk-to_public_key-bytes".into(), tpk_verdict(&b))),
+                    Err(e) => ctx.inconclusive(format!("R6: cannot serialise public key: {e}")),
+                }
+                // struct built through the public fields (no parser involved)
+                let s2 = SignedSecretKey {
+                    primary_key: s.primary_key.clone(),
+                    details: s.details.clone(),
+                    public_subkeys: s.public_subkeys.clone(),
+                    secret_subkeys: s.secret_subkeys.clone(),
+                };
+                forms.push(("tsk-struct".into(), s2.verify_bindings().map_err(es)));
+                if thorough {
+                    if let Ok(a) = s.to_armored_string(Default::default()) {
+                        forms.push(("tsk-armored".into(), SignedSecretKey::from_string(&a).map_err(|e| format!("parse: {e}")).and_then(|(k, _)| k.verify_bindings().map_err(es))));
+                    }
+                    if let Ok(a) = p.to_armored_string(Default::default()) {
+                        forms.push(("tpk-armored".into(), SignedPublicKey::from_string(&a).map_err(|e| format!("parse: {e}")).and_then(|(k, _)| k.verify_bindings().map_err(es))));
+                    }
+                }
+            }
+            Err(e) => {
+                // the secret form does not even parse: every derived form counts as rejected
+                forms.push(("tpk-to_public_key".into(), Err(format!("parse: {e}"))));
+            }
+        }
+        if thorough {
+            let a = rfc::armor::armor_encode("PGP PRIVATE KEY BLOCK", &[], &tsk, true, "\n");
+            forms.push(("tsk-ref-armored".into(), SignedSecretKey::from_string(&a).map_err(|e| format!("parse: {e}")).and_then(|(k, _)| k.verify_bindings().map_err(es))));
+            if let Some(t) = to_tpk(&pk) {
+                let a = rfc::armor::armor_encode("PGP PUBLIC KEY BLOCK", &[], &ser(&t), true, "\r\n");
+                forms.push(("tpk-ref-armored".into(), SignedPublicKey::from_string(&a).map_err(|e| format!("parse: {e}")).and_then(|(k, _)| k.verify_bindings().map_err(es))));
+            }
+        }
+        ctx.cover(&("R6", &case, &k.name));
+        if case == "no-backsig" {
+            ctx.sample(json!({"rule": "R6", "case": case, "tsk": hexs(&tsk)}));
+        }
+        let reference = forms.iter().find(|(n, _)| n == "tpk-reframed").map(|(_, v)| v.is_ok());
+        for (form, v) in &forms {
+            ctx.eval();
+            ctx.seen("R6.cells", format!("{form}|{case}"));
+            ctx.seen("R6.paths", form.clone());
+            let replay = json!({"rule": "R6", "case": case, "form": form, "key": k.name, "tsk": hexs(&tsk), "verdict": format!("{v:?}")});
+            if let Some(r) = reference {
+                if v.is_ok() != r {
+                    ctx.violation(
+                        format!("C15/R6/{form}/{case}/paths-disagree"),
+                        format!("certificate case {case}: form {form} says {:?} but the public form (reference re-framing) says accepted={r}", v),
+                        replay.clone(),
+                    );
+                }
+            }
+            if judged {
+                match (v, expect) {
+                    (Ok(()), false) => ctx.violation(format!("C15/R6/{form}/{case}/accepted"), format!("{case} accepted as {form}"), replay),
+                    (Err(e), true) => ctx.violation(format!("C15/R6/{form}/{case}/rejected-unexpectedly"), format!("{case} rejected as {form}: {e}"), replay),
+                    _ => {}
+                }
+            } else {
+                ctx.tally(&format!("R6.advisory.{case}.{}", if v.is_ok() { "accepted" } else { "rejected" }), 1);
+            }
+        }
+    }
+}
+
+// ---------------------------------------------------------------------------------------------
 
 pub fn run(ctx: &mut Ctx) {
-    ctx.inconclusive("monitor not built yet");
+    ctx.exhaustive = true;
+    if let Err(e) = librepgp_selfcheck() {
+        ctx.inconclusive(format!("reference self-check (LibrePGP OCB / SKESK v5 sample) failed: {e}"));
+        return;
+    }
+    let thorough = !ctx.quick();
+    let t0 = crate::core::thread_cpu_s();
+
+    // signer keys: primary + encryption subkey + signing subkey
+    let mut specs: Vec<(Spec, u64)> = vec![
+        (Spec { sign_sub: Some(Alg::Ed25519Legacy), ..Spec::simple(false, Alg::Ed25519Legacy, Some(Alg::EcdhCv25519)) }, 0),
+        (Spec { sign_sub: Some(Alg::Ed25519), ..Spec::simple(true, Alg::Ed25519, Some(Alg::X25519)) }, 0),
+        (Spec { sign_sub: Some(Alg::EcdsaP256), ..Spec::simple(false, Alg::EcdsaP256, Some(Alg::EcdhP256)) }, 0),
+        (Spec { sign_sub: Some(Alg::EcdsaP256), ..Spec::simple(true, Alg::EcdsaP256, Some(Alg::EcdhP256)) }, 0),
+        (Spec { sign_sub: Some(Alg::Ed25519), ..Spec::simple(false, Alg::Ed25519, Some(Alg::X25519)) }, 0),
+        (Spec { sign_sub: Some(Alg::Ed448), ..Spec::simple(true, Alg::Ed448, Some(Alg::X448)) }, 0),
+    ];
+    if thorough {
+        specs.push((Spec { sign_sub: Some(Alg::Rsa2048), ..Spec::simple(false, Alg::Rsa2048, Some(Alg::Rsa2048)) }, 0));
+        specs.push((Spec { sign_sub: Some(Alg::EcdsaP384), ..Spec::simple(true, Alg::EcdsaP384, Some(Alg::EcdhP384)) }, 0));
+        specs.push((Spec { sign_sub: Some(Alg::EcdsaP521), ..Spec::simple(false, Alg::EcdsaP521, Some(Alg::EcdhP521)) }, 0));
+        specs.push((Spec { sign_sub: Some(Alg::EcdsaK256), ..Spec::simple(true, Alg::EcdsaK256, Some(Alg::X25519)) }, 0));
+        specs.push((Spec { sign_sub: Some(Alg::Ed25519Legacy), ..Spec::simple(false, Alg::Ed25519Legacy, Some(Alg::EcdhCv25519)) }, 1));
+        specs.push((Spec { sign_sub: Some(Alg::Ed25519), ..Spec::simple(true, Alg::Ed25519, Some(Alg::X25519)) }, 1));
+    }
+    let mut signers: Vec<K> = vec![];
+    for (s, idx) in &specs {
+        match K::load(s, *idx) {
+            Ok(k) => signers.push(k),
+            Err(e) => ctx.inconclusive(format!("zoo key {}: {e}", s.name())),
+        }
+    }
+    if signers.len() < 2 {
+        ctx.inconclusive("signer keys unavailable");
+        return;
+    }
+    let refs: Vec<&K> = signers.iter().collect();
+    let (k4, k6) = (&signers[0], &signers[1]);
+    for k in &refs {
+        ctx.seen("keys", k.name.clone());
+    }
+
+    // recipients for R1
+    // (RSA recipients use index 0: that key is generated and cached by the setup command)
+    let mut rspecs = vec![
+        (Spec::simple(false, Alg::Ed25519Legacy, Some(Alg::EcdhCv25519)), 1),
+        (Spec::simple(true, Alg::Ed25519, Some(Alg::X25519)), 1),
+        (Spec::simple(false, Alg::Ed25519Legacy, Some(Alg::X25519)), 1),
+        (Spec::simple(true, Alg::Ed25519, Some(Alg::EcdhP256)), 1),
+        (Spec::simple(false, Alg::Rsa2048, Some(Alg::Rsa2048)), 0),
+    ];
+    if thorough {
+        rspecs.push((Spec::simple(true, Alg::Rsa2048, Some(Alg::Rsa2048)), 0));
+        rspecs.push((Spec::simple(false, Alg::Ed25519Legacy, Some(Alg::EcdhP384)), 1));
+        rspecs.push((Spec::simple(true, Alg::Ed25519, Some(Alg::EcdhP521)), 1));
+    }
+    let mut rcpts = vec![];
+    for (s, idx) in &rspecs {
+        match K::load(s, *idx) {
+            Ok(k) if !k.subs.is_empty() => {
+                ctx.seen("recipients", k.name.clone());
+                rcpts.push(Rcpt { k, sub: 0 })
+            }
+            Ok(_) => ctx.inconclusive("recipient without subkey"),
+            Err(e) => ctx.inconclusive(format!("zoo key {}: {e}", s.name())),
+        }
+    }
+
+    let mut t = t0;
+    let mut lap = |ctx: &mut Ctx, name: &str| {
+        let n = crate::core::thread_cpu_s();
+        ctx.extra.insert(format!("cpu_s.{name}"), json!(n - t));
+        t = n;
+    };
+    lap(ctx, "keys");
+    run_r1(ctx, &rcpts);
+    lap(ctx, "R1");
+    run_r2(ctx, &refs, k4, k6);
+    lap(ctx, "R2");
+    run_r3(ctx, &refs);
+    lap(ctx, "R3");
+    run_r4(ctx, &refs);
+    lap(ctx, "R4");
+    run_r6(ctx, &refs, k4, k6);
+    lap(ctx, "R6");
 }
